@@ -94,7 +94,6 @@ o.before('{', '''
 ''', start=c0)
 IB = 'old, o0 + common_prefix_len, oe0 - common_suffix_len, new, n0 + common_prefix_len, ne0 - common_suffix_len'   # the box without common prefix / suffix
 o.after('{', '''
-hide(seg_eqs); hide(lcs_len);   // C03 bookkeeping goes through lemmas only (keeps the query small)
 broadcast use {axiom_pure_index, axiom_pure_eq};
 let ghost rel = rel_of(old, new); let ghost lvl = alg_lvl(deadline);
 let ghost o0 = old_range.start as int; let ghost n0 = new_range.start as int;
